@@ -20,7 +20,8 @@ package dispatchcloud
 
 //@ func estimateDockerImageSize property C16 pure
 //@   ensures !matches(collectionPDH, `^[0-9a-f]{32}\+(\d+)$`) ==> result == 0
-//@   ensures forall h string, n int64 :: matches(h, `[0-9a-f]{32}`) && n >= 0 && collectionPDH == h + "+" + itoa(n) ==> result == ite(n >= 122, ((n-80)/42)*67108864, 0)
+//@   # the size part is everything after the 32 hash characters and the "+"
+//@   ensures matches(collectionPDH, `^[0-9a-f]{32}\+(\d+)$`) ==> result == ite(parseok(collectionPDH[33:], 10) && parseint(collectionPDH[33:], 10) >= 122, ((parseint(collectionPDH[33:], 10) - 80) / 42) * 67108864, 0)
 //@   ensures result >= 0
 
 //@ func EstimateScratchSpace property C16
